@@ -248,8 +248,8 @@ package redisemu
 // verifier's memory model (two slices never alias there), so independence of
 // byte payloads is stated as an ownership condition: what is stored in the copy
 // is a slice this call made itself, of the same length and content.
-//@ assertbefore "payload = bytes" [C06] copy.fresh.bytes: madehere(bytes) && len(bytes) == len(skBytes) && allsel(k, 0, len(bytes), bytes[k] == skBytes[k])
-//@ assertbefore "item := &listItem{" [C06] copy.fresh.element: madehere(element) && len(element) == len(p.element) && allsel(k, 0, len(element), element[k] == p.element[k])
+//@ assertbefore "payload = bytes" [C06,C01] copy.fresh.bytes: madehere(bytes) && len(bytes) == len(skBytes) && allsel(k, 0, len(bytes), bytes[k] == skBytes[k])
+//@ assertbefore "item := &listItem{" [C06,C01] copy.fresh.element: madehere(element) && len(element) == len(p.element) && allsel(k, 0, len(element), element[k] == p.element[k])
 //@ assertbefore "payload = newDict" [C06] copy.fresh.table: newDict != nil && newDict != m
 
 //@ func dataStore.getLiveStoreKey
